@@ -35,6 +35,21 @@ CHECKS = {
    text="Every payload over {00,5A,FF} up to length 8 (thorough 9) and structured long payloads (carry chains, chunk-size boundaries) x {LZMA, XZ}: Decode(Encode(p)) == p with nothing left over, and xz -dc decodes the same bytes (batched). Robustness: every byte string of length <= 2, every truncation, deletion, insertion, single-byte and adjacent-pair replacement of 9-10 seeds per format: no panic, no hang, output <= 64*len(in)+64KiB.",
    note="Trusts the system xz tool as the independent decoder (reported as SKIPPED, not passed, if absent). The cross-check against the generated Wuffs std/lzma and std/xz C decoders is made by the C-level checks, not here.",
    ref="DESIGN.md section 4 C17"),
+ "C16": dict(cat="exploration", engine="libmc",
+   technique="bounded-exhaustive enumeration of (DEFLATE/zlib stream, maxEncodedLen) pairs: every limit of every enumerated stream on the real Cut, decoded with compress/flate|zlib and compared with the original payload",
+   text="Every payload over {00,'a',ff} up to length 7 (thorough 8) and structured payloads up to 5000 bytes x compress/flate levels {-2,0,1,5,9} x flush patterns x {deflate, zlib, zlib+FDICT}, plus a hand bit-writer enumerating every stream of <= 3 blocks (stored/fixed/dynamic incl. degenerate trees, 15-bit codes, empty blocks) that compress/flate accepts; each at EVERY maxEncodedLen from 0 to len+2 with and without the writer. Oracle: encodedLen within limit and buffer, encoded[:encodedLen] decodes completely to original[:decodedLen], equals the writer's bytes, whole original when the limit covers the stream, Adler-32 verifies. Robustness: every byte string of length <= 2, longer ones over 8-byte alphabets, every single-byte replacement of 20 seed streams: no panic, lengths inside limit and buffer.",
+   note="'Valid stream' = compress/flate (zlib) decodes it without error and consumes every byte. An error returned for a valid stream is counted, not a violation (the statement constrains successful cuts). Streams above 1<<30 bytes are out of reach.",
+   ref="DESIGN.md section 4 C16"),
+ "C18": dict(cat="exploration", engine="libmc",
+   technique="bounded-exhaustive enumeration of (dimensions, colour type, quantisation table, coefficient blocks) and BFS over AddN call histories against a counter model, each output decoded by an independently written baseline-JPEG reader and image/jpeg",
+   text="Headers/MCU counting for every (w,h) in a 15-value boundary set squared x 3 colour types; full encodes for w,h <= 33; every block with <= 2 non-zero coefficients at boundary positions and values, all-extreme blocks (maximal code length + 0xFF stuffing), zero runs 15/16/17/31/32/62, DC delta extremes; x 6 quantisation tables. Oracle: an independent baseline reader (markers, DQT, SOF0, DHT, SOS, entropy decode with un-stuffing, DC prediction) recovers exactly round-to-nearest(coef/quant) per block, headers declare the configuration, EOI exactly after the required units, image/jpeg decodes it, zero allocations. Histories: BFS over AddN sequences (Add1/3/6, nil, invalid, too few, exact, too many, after error, Reset) to depth 4 against a counter model (states/transitions reported). DCT: constant, step-edge, single-pixel and checkerboard blocks forward then inverse within +-1.",
+   note="Ties in rounding are accepted either way (documentation says 'nearest' only). Sizes above 33 use a 7-block cycle; images with more than 2^18 units are header-checked only in quick.",
+   ref="DESIGN.md section 4 C18"),
+ "C19": dict(cat="exploration", engine="libmc",
+   technique="bounded-exhaustive enumeration of (colour type, depth, width, height, stride, content) including every size within a window of each 64 KiB flush threshold, and all ordered pairs/triples of Encode calls on one Encoder, each output decoded by image/png and an independent chunk/zlib walker",
+   text="Every (colour type, depth) x w in 1..9 x h in 1..6 x 3 strides with position-coded pixels, every content over {00,01,ff} for w*h <= 4, every size whose raw length lies within +-24 bytes of the first three flush thresholds and of the separate-IEND point, dense sweeps, all-0xFF images, and sequences of 2 and 3 Encode calls on one Encoder over all ordered pairs/triples of 8 representative configurations. Oracle: image/png.Decode gives the same dimensions and pixels; an independent walker validates chunk lengths, CRC-32s, one stored block per IDAT with correct LEN/NLEN, BFINAL only on the last, zlib header, Adler-32, nothing after IEND.",
+   note="image/png is the 'standard decoder'. 8-bit v and 16-bit v*0x101 count as the same pixel value. After an Encode whose Writer failed, the next Encode must be valid; the failed call itself must only not panic.",
+   ref="DESIGN.md section 4 C19"),
 }
 
 NOT_YET = "check not built yet in this session (design in DESIGN.md section 4); no claim made"
